@@ -44,7 +44,8 @@ def run(ctx, env):
     if flat is not None:
         encs = [(i, lp, cd, c) for i, (lp, cd, c) in enumerate(flat) if c[0] == "enc"]
         kinds = sorted(set(v for e in encs for (p, v) in e[2] if p.endswith("body")))
-        ctx.ob("R10.0", IP + "IPFix::to_be_bytes", "values-by-record-then-field", kinds == ["Data", "OptionsData"] and all(len(e[1]) == 3 for e in encs), "value emissions under %s" % kinds)
+        okl = all(any(ex._loop_owner.get(x, (None, None)) in ((IP + "Data", "fields"), (IP + "OptionsData", "fields")) for x in e[1]) for e in encs)
+        ctx.ob("R10.0", IP + "IPFix::to_be_bytes", "values-by-record-then-field", kinds == ["Data", "OptionsData"] and okl, "value emissions under %s, each inside an iteration over the decoder's `fields`: %s" % (kinds, okl))
     # R10.1
     n = 0
     for adt, ppath in STRUCTS:
